@@ -602,7 +602,11 @@ void Sim::newEngine() {
     d.cycle_detected = c_cycle;
     cengine = llb_buildengine_create(d);
     if (dbPath != "none") {
-      llb_data_t p{dbPath.size(), (const uint8_t*)dbPath.data()};
+      // llb_data_t is (length, pointer): no terminator is promised, so the bytes right after the path are not
+      // a NUL here (a binding that passes a slice of a longer buffer does the same)
+      static std::string pathBuffer;
+      pathBuffer = dbPath + "#not-part-of-the-path";
+      llb_data_t p{dbPath.size(), (const uint8_t*)pathBuffer.data()};
       char* e = nullptr;
       ok = llb_buildengine_attach_db(cengine, &p, clientVersion, &e);
       if (e) { err = e; free(e); }
